@@ -112,6 +112,59 @@ def feedAll (cfg : Cfg) : Nat → Str → List Str → List Ev × Nat × Str
     let r2 := feedAll cfg r.2.1 r.2.2 segs
     (r.1 ++ r2.1, r2.2)
 
+/-! ### reference terminal: one screen row
+
+What a VT100-style terminal makes of the bytes the shell sends, as far as the row the cursor is in is
+concerned: a glyph is written at the cursor column (the row is padded with blanks when the cursor stands
+beyond its end) and the cursor advances; BS moves left (not below column 0); CR goes to column 0; LF
+starts an empty row; `ESC [ C` / `ESC [ D` move right / left by one; every other escape sequence is
+skipped up to its final byte. The row is unbounded: `maxc`, the largest column the cursor has stood in,
+is what must stay below the window width for a real terminal to behave like this one (no wrapping). -/
+
+structure Scr where
+  row : Str := []
+  col : Nat := 0
+  esc : Nat := 0        -- 0 ground, 1 after ESC, 2 inside `ESC [`
+  maxc : Nat := 0
+deriving DecidableEq, Repr
+
+def Scr.put (r : Scr) (b : UInt8) : Scr :=
+  { r with row := (r.row ++ List.replicate (r.col - r.row.length) 32).take r.col ++ b :: r.row.drop (r.col + 1),
+           col := r.col + 1, maxc := max r.maxc (r.col + 1) }
+
+def Scr.byte (r : Scr) (b : UInt8) : Scr :=
+  if r.esc = 0 then
+    if b = 8 then { r with col := r.col - 1 }
+    else if b = 27 then { r with esc := 1 }
+    else if b = 13 then { r with col := 0 }
+    else if b = 10 then { r with row := [] }
+    else r.put b
+  else if r.esc = 1 then
+    (if b = 91 then { r with esc := 2 } else { r with esc := 0 })
+  else
+    if b = 67 then { r with esc := 0, col := r.col + 1, maxc := max r.maxc (r.col + 1) }
+    else if b = 68 then { r with esc := 0, col := r.col - 1 }
+    else if 64 ≤ b ∧ b ≤ 126 then { r with esc := 0 }
+    else r
+
+def Scr.feed (r : Scr) : Str → Scr
+  | [] => r
+  | b :: bs => (r.byte b).feed bs
+
+/-- a glyph: what the key scanner calls printable is one (`C13_scanner_chars_plain`) -/
+def plain (c : UInt8) : Bool := 32 ≤ c && c ≤ 126
+
+/-- all bytes sent to the client, in order -/
+def txBytes : List Ev → Str
+  | [] => []
+  | .tx _ bs :: r => bs ++ txBytes r
+  | _ :: r => txBytes r
+
+/-- the longest the edit line gets while these keys are handled -/
+def widest (cfg : Cfg) (ns : Nodes) (feed : Feed) : St → List Key → Nat
+  | s, [] => s.line.length
+  | s, k :: ks => max s.line.length (widest cfg ns feed (onKey cfg ns feed s k).1 ks)
+
 /-! ### sessions -/
 
 /-- the session slots an op may change: its own slot, and for a loop pass exactly the slots whose
@@ -125,7 +178,7 @@ def touches (w : World) : Op → Nat → Bool
   | .xconn k, j => j == k
   | .xrecv k _, j => j == k
   | .xdisc k, j => j == k
-  | .pass, j => w.exits.contains (j, (w.slot j).gen) || (w.slot j).ending
+  | .pass, j => w.exits.contains (j, (w.slot j).gen) || (w.slot j).ending || w.gone.contains j
   | .sstart, j => j == 7 || w.exits.contains (j, (w.slot j).gen) || (w.slot j).ending
   | .srecv _, j => j == 7 || w.exits.contains (j, (w.slot j).gen) || (w.slot j).ending
   | .sstop, j => j == 7 || w.exits.contains (j, (w.slot j).gen) || (w.slot j).ending
@@ -152,5 +205,17 @@ def joinSp : List Str → Str
   | [] => []
   | [a] => a
   | a :: b :: r => a ++ 32 :: joinSp (b :: r)
+
+/-- the quote character that does not occur in `a` (when at most one of them does) -/
+def pickQuote (a : Str) : UInt8 := if (34 : UInt8) ∈ a then 39 else 34
+
+/-- an argument wrapped in quotes -/
+def quoteArg (a : Str) : Str := pickQuote a :: a ++ [pickQuote a]
+
+/-- arguments, each wrapped in quotes, joined by single spaces: how a client passes arbitrary bytes -/
+def joinQuoted : List Str → Str
+  | [] => []
+  | [a] => quoteArg a
+  | a :: b :: r => quoteArg a ++ 32 :: joinQuoted (b :: r)
 
 end Tbox.C13
